@@ -58,6 +58,9 @@ def run(ctx):
         c14t.run_text(ctx)
         if hasattr(c14t, "run_inline"):
             c14t.run_inline(ctx)
+        # the readers of value frames (list / by-code property readers, string / array / kv readers) against their model + the
+        # reader-consistency monitor: a value a client stored must be read back the same through every accessor
+        c14t.run_texthandlers(ctx, prefixes=("C14:",))
     except ImportError:
         pass
     ctx.cov["rule"] = ("per layout: random field values (edge bytes, ascending bytes, random; names well-formed/too long/NUL at edge) through the real "
